@@ -1162,7 +1162,9 @@ class StructBody:
         decl = [(f, t) for f, t in self.ctx.structs[sname] if t[0] != "PhantomData"]
         if sorted(f for f, _ in decl) != sorted(f for f, _, _ in res) or len(e[2]) != len(self.ctx.structs[sname]):
             self.err("the final literal does not list exactly the fields of %s" % sname)
-        self.result = res
+        # the order of the fields in a struct literal has no meaning: declaration order of the struct
+        pos = {f: i for i, (f, _) in enumerate(decl)}
+        self.result = sorted(res, key=lambda r: pos[r[0]])
         self.result_struct = sname
 
     def run(self, blk):
@@ -1670,6 +1672,17 @@ def translate(repo):
             tags.append((cn, sb.tag))
         if sb.inv:
             invs.append(cn)
+    # a nested element is handed to an impl only under the tag that impl asserts at its head
+    tagd = dict(tags)
+    for cn, n, rel, body in out:
+        for tag, impl in re.findall(r'SRepNested (src_\w+) "(\w+)"', body) + \
+                re.findall(r'\(\[(src_\w+)\], ANested "\w+" "(\w+)"', body):
+            if tagd.get(impl) != tag:
+                raise ShapeError("%s: impl Parse for %s: a nested %s is parsed under %s but asserts %s"
+                                 % (rel, n, impl, tag, tagd.get(impl)))
+        if re.search(r'ANested', body) and len(re.findall(r'ANested', body)) != \
+                len(re.findall(r'\(\[src_\w+\], ANested', body)):
+            raise ShapeError("%s: impl Parse for %s: a nested arm with several tags" % (rel, n))
     missing = [n for n in COVERED if n not in ctx.impls]
     if missing:
         raise ShapeError("covered Parse impls have disappeared: %r" % missing)
